@@ -114,3 +114,81 @@ Definition cleanup_agrees (c : cleanup_case) : bool :=
   | CwErr => cc_err c
   | CwOutOfFuel => false
   end.
+
+(* ---------------------------------------------------------------- whole command on a workspace *)
+Definition outcome_eqb (a b : outcome) : bool :=
+  match a, b with
+  | OutFixerError, OutFixerError | OutConflicts, OutConflicts | OutGitRefused, OutGitRefused
+  | OutDryRun, OutDryRun | OutDone, OutDone | OutCommitFailed, OutCommitFailed
+  | OutOutOfFuel, OutOutOfFuel => true
+  | _, _ => false
+  end.
+
+Record ws_case := {
+  w_policy : policy;
+  w_dry : bool;
+  w_files : amap str;                 (* before: path -> content id *)
+  w_dirs : list str;
+  w_sel : list str;                   (* the .rego files the command loads *)
+  w_roots : list str;                 (* config.GetPotentialRoots, as observed *)
+  w_lint : list (str * (list str * option str));   (* content id -> package path, id after non-moving fixes *)
+  w_out : outcome;
+  w_after_files : amap str;
+  w_after_dirs : list str }.
+
+Fixpoint tget {V} (t : list (str * V)) (k : str) : option V :=
+  match t with [] => None | (k', v) :: t' => if str_eqb k' k then Some v else tget t' k end.
+
+Definition lint_pkg_of (t : list (str * (list str * option str))) (c : str) : list str :=
+  match tget t c with Some (p, _) => p | None => [] end.
+Definition lint_fix_of (t : list (str * (list str * option str))) (c : str) : option str :=
+  match tget t c with Some (_, f) => f | None => None end.
+
+(* every order in which the moving violations can be picked: all results of [fix_loop] *)
+Fixpoint explore (rounds : nat) (pol : policy) (starting roots : list str)
+         (t : list (str * (list str * option str))) (p : provider str) (r : report)
+  : list (loop_result str) :=
+  match rounds with
+  | O => [LOutOfFuel]
+  | S n =>
+    match run_fixes pv_rename FUEL pol starting p r (pending_content (lint_fix_of t) p) with
+    | SOk p1 r1 =>
+      match pending_moves (lint_pkg_of t) roots find_closest_matching_root p1 with
+      | [] => [LDone p1 r1]
+      | moves =>
+        flat_map (fun m => match apply_fix pv_rename FUEL pol starting p1 r1 m with
+                           | SOk p2 r2 => explore n pol starting roots t p2 r2
+                           | SErr => [LErr]
+                           | SOutOfFuel => [LOutOfFuel]
+                           end) moves
+      end
+    | SErr => [LErr]
+    | SOutOfFuel => [LOutOfFuel]
+    end
+  end.
+
+Definition no_git : git_view := {| gv_repo := RepoNone; gv_status := [] |}.
+
+Definition finish_own (fl : flags) (gv : git_view) (cwd : str) (roots : list str) (fs : fsys str)
+           (lr : loop_result str) : outcome * fsys str :=
+  match lr with
+  | LDone p _ => finish_command fl cwd gv roots fs lr (pv_deleted p) (pv_modified p)
+  | _ => finish_command fl cwd gv roots fs lr [] []
+  end.
+
+Definition ws_results (c : ws_case) : list (outcome * fsys str) :=
+  let fs := {| fs_files := w_files c; fs_dirs := w_dirs c |} in
+  match load_provider fs (w_sel c) with
+  | None => [(OutFixerError, fs)]
+  | Some p0 =>
+    map (finish_own {| fl_force := true; fl_dry_run := w_dry c |} no_git [] (w_roots c) fs)
+        (explore 12 (w_policy c) (akeys (pv_files p0)) (w_roots c) (w_lint c) p0 new_report)
+  end.
+
+Definition fs_matches (c : ws_case) (of : outcome * fsys str) : bool :=
+  outcome_eqb (fst of) (w_out c)
+  && map_eqb (fs_files (snd of)) (w_after_files c)
+  && set_eqb (fs_dirs (snd of)) (w_after_dirs c).
+
+Definition ws_agrees (c : ws_case) : bool := existsb (fs_matches c) (ws_results c).
+Definition ws_leaves (c : ws_case) : nat := length (ws_results c).
